@@ -19,7 +19,7 @@ func VerifC06Include() {
 	// included project: sub/inc.yaml
 	inc := map[string]any{
 		"services": map[string]any{
-			"inc": map[string]any{"image": "img-${TAG-none}-${ONLYSUB:-none}", "build": map[string]any{"context": "./ctx" + v},
+			"inc": map[string]any{"image": "img-${TAG-none}-${ONLYSUB:-none}-${DOTONLY:-no}", "build": map[string]any{"context": "./ctx" + v},
 				"env_file": []any{"./svc.env"}, "volumes": []any{"./data:/data", "named:/n"}},
 			// path attributes written as mappings inside sequences, inherited through a same-file extends
 			"lbase": map[string]any{"image": "l", "env_file": []any{map[string]any{"path": "./l.env", "required": false}},
@@ -41,9 +41,9 @@ func VerifC06Include() {
 	if hasDotEnv {
 		if pd == 1 || pd == 2 {
 			// with an explicit project_directory the .env beside the included file is a decoy
-			vrtFile(subAbs+"/.env", "TAG=decoy\nONLYSUB=decoy\n")
+			vrtFile(subAbs+"/.env", "TAG=decoy\nONLYSUB=decoy\nDOTONLY=decoy\n")
 		} else {
-			vrtFile(subAbs+"/.env", "TAG=fromsub\nONLYSUB=sub"+v+"\n")
+			vrtFile(subAbs+"/.env", "TAG=fromsub\nONLYSUB=sub"+v+"\nDOTONLY=dot\n")
 		}
 	}
 	long := map[string]any{"path": subRel + "/inc.yaml"}
@@ -55,14 +55,14 @@ func VerifC06Include() {
 		baseDir = w + "/pd.v2"
 		vrtDir(w + "/pd.v2")
 		if hasDotEnv {
-			vrtFile(w+"/pd.v2/.env", "TAG=fromsub\nONLYSUB=sub"+v+"\n")
+			vrtFile(w+"/pd.v2/.env", "TAG=fromsub\nONLYSUB=sub"+v+"\nDOTONLY=dot\n")
 		}
 	case 2: // absolute project_directory different from the included file's directory
 		long["project_directory"] = w + "/abs"
 		baseDir = w + "/abs"
 		vrtDir(w + "/abs")
 		if hasDotEnv {
-			vrtFile(w+"/abs/.env", "TAG=fromsub\nONLYSUB=sub"+v+"\n")
+			vrtFile(w+"/abs/.env", "TAG=fromsub\nONLYSUB=sub"+v+"\nDOTONLY=dot\n")
 		}
 	}
 	var include any = []any{long}
@@ -133,7 +133,12 @@ func VerifC06Include() {
 			tag, only = "frome1", "d-frome1"
 		}
 	}
-	vrtAssert("included-interpolation-env", s["image"] == any("img-"+tag+"-"+only))
+	// a variable only the .env of the included project defines: seen unless the entry declares its own env_file
+	dot := "no"
+	if hasDotEnv && !chain {
+		dot = "dot"
+	}
+	vrtAssert("included-interpolation-env", s["image"] == any("img-"+tag+"-"+only+"-"+dot))
 	// the included env must not leak into the parent's own interpolation
 	vrtAssert("parent-main-file-not-affected", tcSvc(m, "own")["image"] == any("own-unset"))
 	vrtAssert("parent-later-file-not-affected", tcSvc(m, "own")["hostname"] == any("h-unset"))
